@@ -50,11 +50,11 @@ Section Clean.
        (d_mode d = DCreated -> exists_b w (r_name (ld (d_source d))) = false) /\
        (d_mode d = DModified ->
           forall l, exists l' evs,
-            is_dirty fuel runid w (ChkMem l) (d_source d) (ld (d_source d)) (smax r chg) (f :: seen)
+            is_dirty fuel runid nil w (ChkMem l) (d_source d) (ld (d_source d)) (smax r chg) (f :: seen)
             = Ret (VClean, w, ChkMem l', evs) /\ incl_l l l')) ->
     forall ds, (forall d, In d ds -> In d (deps_of (dbs w) r f)) ->
     forall l evs, exists l' evs',
-      walk_deps (fun w0 c s rs => is_dirty fuel runid w0 c s rs (smax r chg) (f :: seen)) runid f r
+      walk_deps (fun w0 c s rs => is_dirty fuel runid nil w0 c s rs (smax r chg) (f :: seen)) runid f r
                 (map (fun x => (x, load runid (dbs w) (d_source x))) ds) w (ChkMem l) [] evs
       = Ret (VClean, w, ChkMem l', evs') /\ incl_l l l' /\ mem f l' = true.
   Proof.
@@ -77,7 +77,7 @@ Section Clean.
     forall mx seen l, (forall a, mem a seen = true -> (rk g < rk a)%nat) ->
       (forall chg, r_changed (ld g) = Some chg -> (chg <= mx)%Z) ->
       exists l' evs,
-        is_dirty fuel runid w (ChkMem l) g (ld g) mx seen = Ret (VClean, w, ChkMem l', evs) /\ incl_l l l'.
+        is_dirty fuel runid nil w (ChkMem l) g (ld g) mx seen = Ret (VClean, w, ChkMem l', evs) /\ incl_l l l'.
   Proof.
     induction n as [|n IH]; intros g Hn Hq fuel Hfuel mx seen l Hseen Hmx; [lia|].
     destruct fuel as [|fuel']; [lia|].
@@ -112,7 +112,7 @@ Section Clean.
   Theorem quiet_target_clean fuel g l :
     Q g -> (rk g < fuel)%nat ->
     (forall chg, r_changed (ld g) = Some chg -> (chg <= runid)%Z) ->
-    exists l' evs, is_dirty fuel runid w (ChkMem l) g (ld g) runid [] = Ret (VClean, w, ChkMem l', evs)
+    exists l' evs, is_dirty fuel runid nil w (ChkMem l) g (ld g) runid [] = Ret (VClean, w, ChkMem l', evs)
                    /\ incl_l l l'.
   Proof.
     intros Hq Hfuel Hle.
@@ -180,7 +180,7 @@ Section CleanB.
   Theorem quiet_b_all_clean fuel g l :
     forallb quiet_row_b S = true -> In g S -> (rk g < fuel)%nat ->
     (forall chg, r_changed (ld runid w g) = Some chg -> (chg <= runid)%Z) ->
-    exists l' evs, is_dirty fuel runid w (ChkMem l) g (ld runid w g) runid [] = Ret (VClean, w, ChkMem l', evs).
+    exists l' evs, is_dirty fuel runid nil w (ChkMem l) g (ld runid w g) runid [] = Ret (VClean, w, ChkMem l', evs).
   Proof.
     intros Hb Hg Hf Hle.
     destruct (quiet_target_clean runid w rk (fun x => In x S) (quiet_b_sound Hb) fuel g l Hg Hf Hle) as (l' & evs & H & _).
